@@ -395,6 +395,40 @@ def r9_convergence_measure(idx, r):
                       "is reported converged and the coupled iterations stop early")
 
 
+def r10_zero_divisors(idx, r):
+    """'step lengths sum to availability times cycle length' for ANY cycle history the settings admit. The schema of a
+    detailed cycle admits `burn steps: 0` and `availability factor: 0` (Range(min=0)); every division by one of those
+    quantities in the step/cycle-length arithmetic must sit behind a test that excludes zero - as the simple-input branch
+    does for burnSteps - or an admitted history ends in ZeroDivisionError."""
+    f = idx.func("armi.utils._getStepAndCycleLengths")
+    if f is None:
+        raise AnchorMissing("armi.utils._getStepAndCycleLengths")
+    par = {}
+    for nd in ast.walk(f.node):
+        for ch in ast.iter_child_nodes(nd):
+            par[ch] = nd
+    KEYS = ("burn steps", "burnSteps", "aFactor", "availab")
+    n = 0
+    for d in [x for x in ast.walk(f.node) if isinstance(x, ast.BinOp) and isinstance(x.op, ast.Div) and any(k in norm(x.right) for k in KEYS)]:
+        n += 1
+        div = norm(d.right)
+        tests = [norm(t) for t, pol in path_conditions(f.node, d)]
+        nd = d
+        while nd in par:  # conditional expressions and comprehension filters above the division
+            nd = par[nd]
+            if isinstance(nd, ast.IfExp):
+                tests.append(norm(nd.test))
+            if isinstance(nd, (ast.ListComp, ast.GeneratorExp)):
+                tests += [norm(i) for g in nd.generators for i in g.ifs]
+        root = div.replace("cycle[", "").replace("cs[", "").strip("]'\"")
+        guarded = any((root in t or div in t) and ("0" in t) for t in tests)
+        r.require(guarded, f"divisor-guarded:{div[:40]}", f, node=d,
+                  msg=f"`{norm(d)[:70]}` divides by `{div}`, a quantity the cycles schema admits as 0, without a test that excludes zero on this path: a history the settings accept "
+                      "(a cycle without burn steps / a decay-only cycle with availability 0) raises ZeroDivisionError when the step lengths are computed")
+    if n < 3:
+        raise AnalysisError(f"only {n} divisions by burn steps / availability found in _getStepAndCycleLengths")
+
+
 def run(idx, chk):
     chk.explanation = (
         "C15: the operator's main, cycle and node loops, _interactAll, the six interactAllX entry points, getActiveInterfaces, the tight "
@@ -417,3 +451,5 @@ def run(idx, chk):
                  necessary="numbering must follow the order a run visits nodes")
     chk.run_rule("R15.9", "tight coupling: the measure compared one-sidedly with the tolerance is a magnitude (abs / norm) in every branch", lambda r: r9_convergence_measure(idx, r), floor=3,
                  necessary="coupled iterations run until every coupler has converged")
+    chk.run_rule("R15.10", "every division by burn steps / availability factor in the step-length arithmetic excludes zero on its path", lambda r: r10_zero_divisors(idx, r), floor=3,
+                 necessary="step lengths are defined for ANY cycle history the settings admit (the schema admits 0 for both)")
